@@ -324,4 +324,150 @@ theorem independent_fails_F12 :
   intro kv hkv hk; simp at hkv; subst hkv
   exact .branch (by decide) (by decide) (by intro kv hkv hk; simp at hkv; subst hkv; simp at hk)
 
+mutual
+/-- no variable of the divided state is a *reference* to a dictionary object -/
+def NoDictRef (h : Heap) : DS → Prop
+  | .leaf (.ref a) => ∀ kvs, h.getD a .none ≠ .dict kvs
+  | .leaf (.own _) => True
+  | .node kvs => NoDictRefKids h kvs
+def NoDictRefKids (h : Heap) : List (String × DS) → Prop
+  | [] => True
+  | (_, d) :: rest => NoDictRef h d ∧ NoDictRefKids h rest
+end
+
+mutual
+theorem copyDicts_noDictRef (h : Heap) : ∀ ds, NoDictRef h (copyDictsDS h ds)
+  | .leaf (.ref a) => by
+    unfold copyDictsDS
+    cases hv : h.getD a .none with
+    | dict kvs => simp [NoDictRef]
+    | _ => simp only [NoDictRef]; intro kvs hk; rw [hv] at hk; cases hk
+  | .leaf (.own v) => by simp [copyDictsDS, NoDictRef]
+  | .node kvs => by
+    simp only [copyDictsDS, NoDictRef]
+    exact copyDictsKids_noDictRef h kvs
+theorem copyDictsKids_noDictRef (h : Heap) : ∀ kvs, NoDictRefKids h (copyDictsKids h kvs)
+  | [] => by simp [copyDictsKids, NoDictRefKids]
+  | (k, d) :: rest => by
+    simp only [copyDictsKids, NoDictRefKids]
+    exact ⟨copyDicts_noDictRef h d, copyDictsKids_noDictRef h rest⟩
+end
+
+theorem noDictRefKids_lookup (h : Heap) (kvs : List (String × DS)) (k : String) (c : DS)
+    (hk : NoDictRefKids h kvs) (hl : AL.lookup k kvs = some c) : NoDictRef h c := by
+  induction kvs with
+  | nil => simp [AL.lookup] at hl
+  | cons hd tl ih =>
+    obtain ⟨k', d⟩ := hd
+    simp only [NoDictRefKids] at hk
+    simp only [AL.lookup] at hl
+    by_cases hkk : k' = k
+    · simp [hkk] at hl; subst hl; exact hk.1
+    · simp [hkk] at hl; exact ih hk.2 hl
+
+theorem noDictRefKids_set (h : Heap) (kvs : List (String × DS)) (k : String) (c : DS)
+    (hk : NoDictRefKids h kvs) (hc : NoDictRef h c) : NoDictRefKids h (AL.set k c kvs) := by
+  induction kvs with
+  | nil => simp [AL.set, NoDictRefKids, hc]
+  | cons hd tl ih =>
+    obtain ⟨k', d⟩ := hd
+    simp only [NoDictRefKids] at hk
+    simp only [AL.set]
+    by_cases hkk : k' = k
+    · simp [hkk, NoDictRefKids, hc, hk.2]
+    · simp [hkk, NoDictRefKids, hk.1, ih hk.2]
+
+/-- merging into a divided state that holds no reference to a dictionary object writes to no
+shared object: the heap is as before -/
+theorem mergeDS_keeps_heap (h : Heap) (ds : DS) (m : KVs) :
+    NoDictRef h ds → (mergeDS h ds m).1 = h ∧ NoDictRef h (mergeDS h ds m).2 := by
+  induction h, ds, m using mergeDS.induct with
+  | case1 h ds => intro hn; simp [mergeDS, hn]
+  | case2 h kvs k rest vk child hl hdl r ih1 ih2 =>
+    intro hn
+    simp only [NoDictRef] at hn
+    have hc := noDictRefKids_lookup h kvs k child hn hl
+    have h1 := ih1 hc
+    have hr1 : r.1 = h := h1.1
+    have hn2 : NoDictRef r.1 (.node (AL.set k r.2 kvs)) := by
+      rw [hr1]; simp only [NoDictRef]; exact noDictRefKids_set h kvs k r.2 hn h1.2
+    have h2 := ih2 hn2
+    rw [hr1] at h2
+    have e : mergeDS h (.node kvs) ((k, .dict vk) :: rest) = mergeDS r.1 (.node (AL.set k r.2 kvs)) rest := by
+      conv => lhs; unfold mergeDS
+      simp only [hl, hdl, if_true]
+      rfl
+    rw [e, hr1]
+    exact h2
+  | case3 h kvs k rest vk child hl hdl ih =>
+    intro hn
+    simp only [NoDictRef] at hn
+    have hn2 : NoDictRef h (.node (AL.set k (.leaf (.own (.dict vk))) kvs)) := by
+      simp only [NoDictRef]; exact noDictRefKids_set h kvs k _ hn (by simp [NoDictRef])
+    have h2 := ih hn2
+    have e : mergeDS h (.node kvs) ((k, .dict vk) :: rest) =
+        mergeDS h (.node (AL.set k (.leaf (.own (.dict vk))) kvs)) rest := by
+      conv => lhs; unfold mergeDS
+      simp only [hl, hdl, Bool.false_eq_true, if_false]
+    rw [e]
+    exact h2
+  | case4 h kvs k v rest hno ih =>
+    intro hn
+    simp only [NoDictRef] at hn
+    have hn2 : NoDictRef h (.node (AL.set k (.leaf (.own v)) kvs)) := by
+      simp only [NoDictRef]; exact noDictRefKids_set h kvs k _ hn (by simp [NoDictRef])
+    have h2 := ih hn2
+    have e : mergeDS h (.node kvs) ((k, v) :: rest) = mergeDS h (.node (AL.set k (.leaf (.own v)) kvs)) rest := by
+      conv => lhs; unfold mergeDS
+      split
+      · next vk0 child0 hl0 => exact (hno vk0 child0 rfl hl0).elim
+      · rfl
+    rw [e]
+    exact h2
+  | case5 h ckvs k v rest => intro hn; simp [mergeDS, NoDictRef]
+  | case6 h a k v rest kvs hd =>
+    intro hn
+    simp only [NoDictRef] at hn
+    exact absurd hd (hn kvs)
+  | case7 h a k v rest hno =>
+    intro hn
+    unfold mergeDS
+    split
+    · rename_i ckvs hd; exact absurd hd (hno ckvs)
+    · exact ⟨rfl, hn⟩
+  | case8 h ds head tail h1 h2 h3 =>
+    intro hn
+    unfold mergeDS
+    split <;> first | exact ⟨rfl, hn⟩ | (exfalso; simp_all)
+
+/-- **An explicit initial state for one daughter writes to no shared object** (`Store.divide` since
+fix 8fe5c41): whatever the dividers handed out — also one dictionary object to both daughters, as
+the default `set` divider does — merging a daughter's explicit `initial_state` leaves the heap of
+shared objects exactly as it was; the override lands in that daughter's own copy.  Hence her sister,
+who may hold the very same objects, starts from what the dividers gave her (finding F45 was the
+opposite: `d1` started from `a = 100` because `d0` had asked for it). -/
+theorem explicit_state_writes_no_shared_object (h h' : Heap) (ds ds' : DS) (init : Val)
+    (hm : mergeInitial h ds init = .ok (h', ds')) : h' = h := by
+  unfold mergeInitial at hm
+  cases init with
+  | none => simp at hm; exact hm.1.symm
+  | dict m =>
+    cases m with
+    | nil => simp at hm; exact hm.1.symm
+    | cons kv rest =>
+      simp only at hm
+      have key : ∀ dsx : DS, (if dsx.isDictLike h = true then
+            Except.ok (mergeDS h (copyDictsDS h dsx) (kv :: rest)) else Except.error Err.typeError) =
+          (Except.ok (h', ds') : Except Err (Heap × DS)) → h' = h := by
+        intro dsx hx
+        by_cases hc : dsx.isDictLike h = true
+        · rw [if_pos hc] at hx
+          injection hx with hx
+          have := (mergeDS_keeps_heap h (copyDictsDS h dsx) (kv :: rest) (copyDicts_noDictRef h dsx)).1
+          rw [← this]
+          exact (congrArg Prod.fst hx).symm
+        · rw [if_neg hc] at hx; cases hx
+      exact key _ hm
+  | _ => simp at hm
+
 end VivProps.C11
